@@ -14,6 +14,9 @@
      rdni        print x[-i]                     defk(k) / rdk / rdnk   const K = k; print x[K]; print x[-K]
      wri(v)      x[i] = v                        wrl(k,v)    x[k] = v
      app(v)      append(&'x, v)   (dyn only)     len         print len(x)
+     rdp(w)      print x[push(&'x, w)]   the index expression appends w and yields the new last index; rdpn: yields -1
+                 (the bounds check and the normalisation of a negative index use the length the array has when the
+                 element is read, after the index expression has been evaluated)
      xset(n)     x = <new literal of n elements / characters>  (dyn, str)      ifxset(n)   if c == 1 { x = ... }
      loop        while j < 2 { print x[i]; i = i + 1; j = j + 1; }
    Run(kind, L, es, c) yields the prescribed observation: the printed lines up to the first access
@@ -60,6 +63,8 @@ Step(s, e, c) ==
       [] e.k = "wri"  -> Write(s, s.i, e.w)
       [] e.k = "wrl"  -> Write(s, e.v, e.w)
       [] e.k = "app"  -> [s EXCEPT !.x = Append(@, e.w)]
+      [] e.k = "rdp"  -> Read([s EXCEPT !.x = Append(@, e.w)], Len(s.x))          \* x[push(&'x, w)]: push appends, returns the new last index
+      [] e.k = "rdpn" -> Read([s EXCEPT !.x = Append(@, e.w)], 0 - 1)             \* x[pushm(&'x, w)]: pushm appends, returns -1
       [] e.k = "xset" -> [s EXCEPT !.x = Fresh(e.n)]                    \* x = <literal of n elements>
       [] e.k = "ifxset" -> IF c = 1 THEN [s EXCEPT !.x = Fresh(e.n)] ELSE s
       [] e.k = "len"  -> [s EXCEPT !.out = Append(@, Len(s.x))]
@@ -92,11 +97,12 @@ Events(kind, es) ==
        \cup {[k |-> "rdw", ty |-> ty, big |-> b] : ty \in {"u64", "i64"}, b \in {"4294967297", "4294967296"}}
        \cup (IF kind # "str" THEN {[k |-> "wrl", v |-> v, w |-> w] : v \in {0 - len, -1, 0, len - 1, len}} ELSE {})
        \cup (IF kind = "dyn" /\ len < InitLen + 2 THEN {[k |-> "app", w |-> w]} ELSE {})
+       \cup (IF kind = "dyn" /\ len < InitLen + 2 THEN {[k |-> "rdp", w |-> w], [k |-> "rdpn", w |-> w]} ELSE {})
        \cup (IF kind # "fixed" THEN {[k |-> "len"]} ELSE {})
        \cup (IF kind # "fixed" /\ Cardinality({j \in 1 .. Len(es) : es[j].k \in {"xset", "ifxset"}}) = 0
              THEN {[k |-> r, n |-> n] : r \in {"xset", "ifxset"}, n \in {InitLen - 2, InitLen + 2}} ELSE {})
 
-IsAccess(e) == e.k \in {"rdw", "rdl", "rdc", "rdo", "rdi", "rdni", "rdk", "rdnk", "wri", "wrl", "loop", "len"}
+IsAccess(e) == e.k \in {"rdw", "rdl", "rdc", "rdo", "rdi", "rdni", "rdk", "rdnk", "wri", "wrl", "loop", "len", "rdp", "rdpn"}
 VARIABLE hist
 Init == hist = <<>>
 Next == /\ Len(hist) < MaxLen
@@ -105,7 +111,7 @@ Next == /\ Len(hist) < MaxLen
 Spec == Init /\ [][Next]_hist
 
 Abs(es) == <<[c \in {0, 1} |-> LET s == Run(Kind, InitLen, es, c) IN <<s.i, s.hasI, s.kc, s.hasK, Len(s.x), s.oob>>],
-             {j \in 1 .. Len(es) : es[j].k \in {"let", "set", "ifset", "inc", "app", "xset", "ifxset"}} # {},
+             {j \in 1 .. Len(es) : es[j].k \in {"let", "set", "ifset", "inc", "app", "xset", "ifxset", "rdp", "rdpn"}} # {},
              {j \in 1 .. Len(es) : IsAccess(es[j])} # {},
              IF es = <<>> THEN "none" ELSE es[Len(es)].k>>
 View == Abs(hist)
